@@ -126,6 +126,7 @@ def ref_decode(t: bytes):
 
 
 OKLINE = re.compile(r"^ok n=(\d+) instrs=\[(.*)\] labels=\[(.*)\]$")
+STATS = Counter()   # how much the oracle actually decided
 
 
 def oracle(text: bytes, go: str):
@@ -156,8 +157,12 @@ def oracle(text: bytes, go: str):
             seen += 1
     if labels != want:
         return f"labels: got {labels} want {want}"
+    STATS["accepted_texts_judged"] += 1
+    STATS["instruction_lines_counted"] += len(ilines)
+    STATS["label_definitions_checked"] += sum(1 for k in kinds if k[0] == "label")
     for j, t in enumerate(ilines):
         exp = ref_decode(t)
+        STATS["instruction_lines_decoded_independently" if exp is not None else "instruction_lines_not_canonical"] += 1
         if exp is not None and exp != instrs[j]:
             return f"operands: line {t!r} decoded to {instrs[j]!r}, the named registers / decimal immediates give {exp!r}"
     return None
@@ -288,7 +293,7 @@ def analyse(ck, ins, go, lean, harness=None):
             tot[o.split(" ")[0]] += v
     return {"inputs": n_prog, "accepted": tot["ok"], "errors": tot["err"], "panics": tot["panic"],
             "layout_edit_pairs": n_pairs, "asm_agreement_cases": sum(1 for x in ins if x.startswith("asm ")),
-            "oracle_silent_on": n_oracle_ok,
+            "oracle_silent_on": n_oracle_ok, "oracle_work": dict(STATS),
             "per_kind": {k: dict(c) for k, c in sorted(dist.items())}}
 
 
